@@ -22,7 +22,7 @@ def base_programs(tier, sd):
         if c["fam"].startswith(("goto-loop", "goto-frames", "goto-select", "gosub", "trap:div")):
             progs.append(c)
     for c in c03.cases(tier, sd):
-        if c["fam"].startswith(("recursion", "locals", "static:DV", "for-header-calls", "exit")):
+        if c["fam"].startswith(("recursion", "locals", "static:DV", "for-header-calls", "exit", "complete-blocks")):
             progs.append(c)
     if tier == "quick":
         import random
@@ -32,8 +32,8 @@ def base_programs(tier, sd):
         rng.shuffle(rest)
         rng.shuffle(keep)
         edge = [c for c in rest if c["fam"].startswith(("select-edge", "elseif", "empty", "forconv", "truth", "condfrac"))]
-        frames = [c for c in rest if c["fam"].startswith(("goto-frames", "goto-select", "for-header-calls", "exit"))]
-        rest = [c for c in rest if not c["fam"].startswith(("select-edge", "elseif", "empty", "forconv", "truth", "condfrac", "goto-frames", "goto-select", "for-header-calls", "exit"))]
+        frames = [c for c in rest if c["fam"].startswith(("goto-frames", "goto-select", "for-header-calls", "exit", "complete-blocks"))]
+        rest = [c for c in rest if not c["fam"].startswith(("select-edge", "elseif", "empty", "forconv", "truth", "condfrac", "goto-frames", "goto-select", "for-header-calls", "exit", "complete-blocks"))]
         progs = keep[:500] + rest[:560] + edge[:420] + frames
     for i, c in enumerate(progs):
         c["id"] = i + 1
